@@ -16,3 +16,5 @@ mod tables;
 mod stdwrap;
 #[cfg(kani)]
 mod nv;
+#[cfg(kani)]
+mod vars;
